@@ -108,7 +108,7 @@ type ClusterMetadata struct {
 type InMemoryStore struct {
 	mu              sync.RWMutex
 	state           ClusterMetadata
-	offsets         map[string]int64
+	offsets         map[partitionID]int64
 	consumerOffsets map[consumerOffsetID]int64
 	consumerMeta    map[consumerOffsetID]string
 	consumerGroups  map[string]*metadatapb.ConsumerGroup
@@ -119,7 +119,7 @@ type InMemoryStore struct {
 func NewInMemoryStore(state ClusterMetadata) *InMemoryStore {
 	return &InMemoryStore{
 		state:           cloneMetadata(state),
-		offsets:         make(map[string]int64),
+		offsets:         make(map[partitionID]int64),
 		consumerOffsets: make(map[consumerOffsetID]int64),
 		consumerMeta:    make(map[consumerOffsetID]string),
 		consumerGroups:  make(map[string]*metadatapb.ConsumerGroup),
@@ -267,7 +267,7 @@ func (s *InMemoryStore) NextOffset(ctx context.Context, topic string, partition 
 	if !topicHasPartition(s.state.Topics, topic, partition) {
 		return 0, ErrUnknownTopic
 	}
-	return s.offsets[partitionKey(topic, partition)], nil
+	return s.offsets[partitionID{topic: topic, partition: partition}], nil
 }
 
 // UpdateOffsets implements Store.UpdateOffsets.
@@ -279,12 +279,20 @@ func (s *InMemoryStore) UpdateOffsets(ctx context.Context, topic string, partiti
 	}
 	s.mu.Lock()
 	defer s.mu.Unlock()
-	s.offsets[partitionKey(topic, partition)] = lastOffset + 1
+	s.offsets[partitionID{topic: topic, partition: partition}] = lastOffset + 1
 	return nil
 }
 
 func partitionKey(topic string, partition int32) string {
 	return fmt.Sprintf("%s:%d", topic, partition)
+}
+
+// partitionID keys the next-offset table. With a struct key DeleteTopic removes
+// exactly the partitions of the deleted topic (a "name:" string prefix also matched
+// the partitions of any other topic whose name starts with "name:").
+type partitionID struct {
+	topic     string
+	partition int32
 }
 
 // consumerOffsetID identifies a committed offset. A struct key keeps groups and
@@ -481,10 +489,19 @@ func (s *InMemoryStore) DeleteTopic(ctx context.Context, name string) error {
 	}
 	s.state.Topics = append(s.state.Topics[:index], s.state.Topics[index+1:]...)
 	for key := range s.offsets {
-		if strings.HasPrefix(key, name+":") {
+		if key.topic == name {
 			delete(s.offsets, key)
 		}
 	}
+	// Like the etcd-backed store, drop the consumer offsets committed for the topic
+	// and its configuration so a topic re-created under the same name starts clean.
+	for key := range s.consumerOffsets {
+		if key.topic == name {
+			delete(s.consumerOffsets, key)
+			delete(s.consumerMeta, key)
+		}
+	}
+	delete(s.topicConfigs, name)
 	return nil
 }
 
@@ -626,20 +643,22 @@ func cloneConsumerGroup(group *metadatapb.ConsumerGroup) *metadatapb.ConsumerGro
 		return nil
 	}
 	out := &metadatapb.ConsumerGroup{
-		GroupId:      group.GroupId,
-		State:        group.State,
-		ProtocolType: group.ProtocolType,
-		Protocol:     group.Protocol,
-		Leader:       group.Leader,
-		GenerationId: group.GenerationId,
-		Members:      make(map[string]*metadatapb.GroupMember, len(group.Members)),
+		GroupId:            group.GroupId,
+		State:              group.State,
+		ProtocolType:       group.ProtocolType,
+		Protocol:           group.Protocol,
+		Leader:             group.Leader,
+		GenerationId:       group.GenerationId,
+		Members:            make(map[string]*metadatapb.GroupMember, len(group.Members)),
+		RebalanceTimeoutMs: group.RebalanceTimeoutMs,
 	}
 	for memberID, member := range group.Members {
 		cloned := &metadatapb.GroupMember{
-			ClientId:      member.ClientId,
-			ClientHost:    member.ClientHost,
-			HeartbeatAt:   member.HeartbeatAt,
-			Subscriptions: append([]string(nil), member.Subscriptions...),
+			ClientId:         member.ClientId,
+			ClientHost:       member.ClientHost,
+			HeartbeatAt:      member.HeartbeatAt,
+			Subscriptions:    append([]string(nil), member.Subscriptions...),
+			SessionTimeoutMs: member.SessionTimeoutMs,
 		}
 		if len(member.Assignments) > 0 {
 			cloned.Assignments = make([]*metadatapb.Assignment, 0, len(member.Assignments))
